@@ -92,11 +92,13 @@ CONTRACTS = {
         modifies=["ghost:fs_exists", "ghost:fs_content", "ghost:fs_mode"],
         ensures=["fs_exists == store(old(fs_exists), dst, True)", "fs_content == store(old(fs_content), dst, old(fs_content)[src])", "fs_mode == store(old(fs_mode), dst, old(fs_mode)[src])"],
     ),
-    "vsg.vhdlFile.vhdlFile.vhdlFile.get_lines": dict(returns="list[str]", ensures=["result == LINES(self)"], trusted="observer stub: the emitted lines are a function of the in-memory model (verified shape in contracts/vhdlfile.py)"),
+    # get_lines: real contract in contracts/vhdlfile.py; LINES(self) is defined there as an observer
     # ------------------------------------------------------------------ vsg/apply_rules.py
     "vsg.apply_rules.write_vhdl_file": dict(
         types={"oVhdlFile": "obj:vsg.vhdlFile.vhdlFile.vhdlFile", "dConfig": "dict[str,str]"},
-        requires=["oserr == ''"],
+        # representation invariant of vhdlFile (every line of the model is terminated by a carriage_return token:
+        # _processFile appends one per input line) — assumed here, observed by the bounded layer
+        requires=["oserr == ''", "len(oVhdlFile.lAllObjects) == 0 or isinstance(oVhdlFile.lAllObjects[len(oVhdlFile.lAllObjects) - 1], parser.carriage_return)"],
         modifies=["ghost:fs_exists", "ghost:fs_content", "ghost:fs_mode", "ghost:oserr"],
         raises=["OSError", "FileNotFoundError"],
         # crash points and failing calls: whatever happens, the target holds its complete original or the complete
@@ -135,12 +137,17 @@ def install(engine):
     from pyvc.symex import UFS
     from pyvc.terms import BOOL, INT, REF, STR, And, App, Arr, Const, Eq, Implies, Ne, Or, PrefixOf, Select, Seq, T
 
-    UFS["LINES"] = ([REF], Seq(STR))
+    UFS["LINESOF"] = ([Seq(REF), Arr(REF, STR)], Seq(STR))
 
     def LINES(run, st, args, node):
-        from pyvc.values import ListV, Type
+        """LINES(f): the list get_lines() returns for the token list and token values f has now (observer; defined by
+        the `defines` clause of vhdlFile.get_lines)"""
+        from pyvc.values import ListV, Type, parse_type
 
-        return ListV(run.new_cell(st, App("LINES", (args[0].term,), Seq(STR))), Type("str"))
+        toks = run.read_field(st, args[0], "lAllObjects")
+        ty, hk = run.field_info("vsg.parser.item", "value")
+        vals = run.heap_arr(st, hk, ty)
+        return ListV(run.new_cell(st, App("LINESOF", (run.raw(st, toks), vals), Seq(STR))), Type("str"))
 
     def forall_other_mode(run, st, args, node):
         new, old, path = args
